@@ -17,7 +17,7 @@ RULE = (
     "every input accepted by strict decoding among: generated encodings of all non-union types (incl. signed, 64-bit, "
     "named-range and enum-backed leaves), all command codes x directions x configurations, the captured corpus; plus "
     "value-corrupted variants decoded in warn mode whenever every warning is a value warning; per event the re-encoded "
-    "chunk is compared with the input slice at the running offset and with the pinned width; distinct = distinct (type/code, "
+    "chunk is compared with the input slice at the running offset and with the pinned width; warn-mode variants include two different out-of-range values in two fields of the same type, their collected event lists are re-encoded as a list after the decode and once more after up to 40 further decodes in the same process; distinct = distinct (type/code, "
     "configuration or fault, event count) cases"
 )
 ASSUMPTIONS = ["pinned widths", "contract layer (icontract) is supplementary; the trace law decides"]
@@ -58,6 +58,8 @@ def check_accepted(case, rec):
     joined = b"".join(Binary.unmarshal([e.raw for e in t.events]))
     if joined != case.d:
         rec.violation("concat", "unmarshal-join", f"{case.short()}\nb''.join(Binary.unmarshal(events)) = {joined.hex()[:80]} != input", case.replay(mode="strict"))
+    if rec.counters.get("accepted", 0) % 4 == 0:
+        RETAINED.append((case, t, "strict"))
     return True
 
 
@@ -70,15 +72,46 @@ def check_warn(case, rec):
         return
     rec.case(("warn", case.sig), nontrivial=True)
     rec.count("warn_value_only")
+    if len(t.warnings) >= 2:
+        rec.count("warn_several_value_warnings")
     for rule, mech, msg in oracles.chunks_conservation(case, None, t):
         rec.violation(rule, "warn:" + mech, f"{case.short()}\n{msg}", case.replay(mode="warn"))
+    # what a caller does: collect the events, then re-encode the list
+    late_reencode(case, t, rec, "warn", "after the decode")
+    RETAINED.append((case, t, "warn"))
+
+
+RETAINED = []  # (case, trace, mode) of earlier decodes of this process whose event lists are re-encoded again later
+
+
+def late_reencode(case, t, rec, mode, when):
+    from tpmstream.io.binary import Binary
+
+    rec.count("late_reencodes")
+    try:
+        joined = b"".join(Binary.unmarshal([e.raw for e in t.events]))
+    except Exception as e:
+        rec.violation("late-reencode", f"{mode}:raises", f"{case.short()}\nre-encoding the collected event list {when} raises {type(e).__name__}: {e}", case.replay(mode=mode))
+        return
+    if joined != case.d:
+        i = next((k for k, (a, b) in enumerate(zip(joined, case.d)) if a != b), min(len(joined), len(case.d)))
+        rec.violation("late-reencode", f"{mode}:differs", f"{case.short()}\nthe collected event list re-encoded {when} gives {joined.hex()[:120]} - differs from the input at byte {i} "
+                                                          f"(at emission every event re-encoded to its input slice)", case.replay(mode=mode))
+
+
+def recheck_retained(rec):
+    """Event lists kept from earlier decodes must still re-encode to their inputs after other inputs were decoded."""
+    for case, t, mode in RETAINED:
+        late_reencode(case, t, rec, mode, f"after {len(RETAINED)} further decodes in the same process")
+    rec.count("retained_lists_rechecked", len(RETAINED))
+    del RETAINED[:]
 
 
 def run_shard(shard, rec):
     rng = random.Random(f"{shard.get('seed', 0)}:C02:{shard['name']}")
     active = contracts.install()
     rec.count("contract_layer_active" if active else "contract_layer_missing")
-    for base in _strict.base_cases(shard, rng):
+    for base in _strict.base_cases(shard, rng, hostile=rec):
         try:
             ok = check_accepted(base, rec)
             if ok and base.d:
@@ -86,8 +119,14 @@ def run_shard(shard, rec):
                 if bref.outcome.kind == "ok":
                     for fc in cases.value_faults(base, bref, rng, limit=1 if shard.get("tier") != "thorough" else 4):
                         check_warn(fc, rec)
+                    for fc in cases.twin_value_faults(base, bref, rng, limit=1 if shard.get("tier") != "thorough" else 3):
+                        rec.count("twin_value_faults")
+                        check_warn(fc, rec)
+                    if len(RETAINED) >= 40:
+                        recheck_retained(rec)
         except contracts.ContractBroken as e:
             rec.violation("contract", "post-condition", f"{base.short()}\n{e}", base.replay(mode="strict"))
+    recheck_retained(rec)
     for k, v in contracts.COUNTS.items():
         rec.count(f"contract_evals_{k}", v)
     rec.sample(dict(case=base.short()))
@@ -95,7 +134,7 @@ def run_shard(shard, rec):
 
 def finish(m, tier):
     inc = []
-    for k in ("accepted", "warn_value_only", "negative_values", "64bit_fields"):
+    for k in ("accepted", "warn_value_only", "negative_values", "64bit_fields", "twin_value_faults", "warn_several_value_warnings", "retained_lists_rechecked"):
         if not m["counters"].get(k):
             inc.append(f"no case of {k}")
     if m["counters"].get("contract_layer_active") and not m["counters"].get("contract_evals_int_to_bytes"):
